@@ -8,4 +8,5 @@ From Mos Require Import model.Format Gen.FmtRules model.FormatTokens spec.Format
 Extraction "../extract/gen/fmt.ml"
   Z.add Z.mul Z.sub Z.opp Z.div Z.modulo Z.of_N Z.to_N Z.of_nat Z.to_nat
   join_chunks join_lines nows format_chunks format default_options
-  all_comments emitted_comments tokens_comments Known_lbrace_trivia import_arg_trivia Known_same_line_statements wf_tokens.
+  all_comments emitted_comments tokens_comments Known_lbrace_trivia import_arg_trivia Known_same_line_statements wf_tokens
+  Known_multiline_comment rechunk stable_chunks.
